@@ -96,6 +96,8 @@ type Exec struct {
 	largeAlloc int
 	clockFixed *Term
 	jsonBlobs  map[*Loc]*jsonBlob
+	opaqueBytes map[*Opaque]*Term
+	marshalKind string
 }
 
 type knownPred struct {
